@@ -420,6 +420,74 @@ func (c *evalCtx) evalCall(n *ast.CallExpr) Value {
 			return VBool{Forall([]*Term{bv}, Implies(rng, body))}
 		}
 		return VBool{Exists([]*Term{bv}, And(rng, body))}
+	case "mktuple":
+		// mktuple(n, i, expr): the tuple (expr[i:=0], ..., expr[i:=n-1])
+		nT := c.intOf(c.eval(n.Args[0]))
+		id, ok := n.Args[1].(*ast.Ident)
+		if !ok || !nT.IsConst() {
+			panic(execError{"contract: mktuple(n, i, expr) needs a constant n and an identifier"})
+		}
+		cnt := int(nT.Val.Int64())
+		saved, had := c.env[id.Name]
+		el := make([]Value, cnt)
+		for k := 0; k < cnt; k++ {
+			c.env[id.Name] = VInt{Int64C(int64(k))}
+			el[k] = c.eval(n.Args[2])
+		}
+		if had {
+			c.env[id.Name] = saved
+		} else {
+			delete(c.env, id.Name)
+		}
+		return VSpecTuple{el}
+	case "iterate":
+		// iterate(n, i, acc, init, expr): acc := init; for i in 0..n-1 { acc = expr }; acc
+		nT := c.intOf(c.eval(n.Args[0]))
+		id, ok1 := n.Args[1].(*ast.Ident)
+		acc, ok2 := n.Args[2].(*ast.Ident)
+		if !ok1 || !ok2 || !nT.IsConst() {
+			panic(execError{"contract: iterate(n, i, acc, init, expr)"})
+		}
+		cnt := int(nT.Val.Int64())
+		cur := c.eval(n.Args[3])
+		savedI, hadI := c.env[id.Name]
+		savedA, hadA := c.env[acc.Name]
+		for k := 0; k < cnt; k++ {
+			c.env[id.Name] = VInt{Int64C(int64(k))}
+			c.env[acc.Name] = cur
+			cur = c.eval(n.Args[4])
+		}
+		if hadI {
+			c.env[id.Name] = savedI
+		} else {
+			delete(c.env, id.Name)
+		}
+		if hadA {
+			c.env[acc.Name] = savedA
+		} else {
+			delete(c.env, acc.Name)
+		}
+		return cur
+	case "sum":
+		// sum(i, lo, hi, expr) with constant bounds
+		id, ok := n.Args[0].(*ast.Ident)
+		lo := c.intOf(c.eval(n.Args[1]))
+		hi := c.intOf(c.eval(n.Args[2]))
+		if !ok || !lo.IsConst() || !hi.IsConst() {
+			panic(execError{"contract: sum(i, lo, hi, expr) needs constant bounds"})
+		}
+		saved, had := c.env[id.Name]
+		acc := Int64C(0)
+		for k := lo.Val.Int64(); k < hi.Val.Int64(); k++ {
+			c.env[id.Name] = VInt{Int64C(k)}
+			acc = Add(acc, c.intOf(c.eval(n.Args[3])))
+		}
+		if had {
+			c.env[id.Name] = saved
+		} else {
+			delete(c.env, id.Name)
+		}
+		return VInt{acc}
 	case "pow2":
 		return VInt{appSimplify("pow2", SInt, []*Term{c.intOf(c.eval(n.Args[0]))})}
 	case "isnil":
@@ -459,6 +527,14 @@ func (c *evalCtx) evalCall(n *ast.CallExpr) Value {
 		args := make([]Value, len(n.Args))
 		for i, a := range n.Args {
 			args[i] = c.eval(a)
+		}
+		if m.Opaque && !(c.e.curC != nil && c.e.curC.Flags["reveal:"+fname]) {
+			var flat []*Term
+			for _, a := range args {
+				flat = append(flat, c.flat(a)...)
+			}
+			c.e.opaqueUsed[fname] = true
+			return VInt{App("spec$"+fname, SInt, flat...)}
 		}
 		saved := map[string]Value{}
 		had := map[string]bool{}
